@@ -127,6 +127,11 @@ def run(module, cfg, workers=16, dump=False, env=None, timeout=3600, extra=(),
     res.wall = time.time() - start
     res.exit = proc.returncode
     res.out = proc.stdout + proc.stderr
+    if proc.returncode != 0 and "Java ran out of memory" in res.out and heap_mb < 24000:
+        # small fixed heaps are fast but a large exploration may need more: once more with four times the heap
+        shutil.rmtree(os.path.join(workdir, "meta"), ignore_errors=True)
+        return run(module, cfg, workers=workers, dump=dump, env=env, timeout=timeout, extra=extra, workdir=workdir,
+                   heap=heap_mb * 4, simulate=simulate, keep=keep, depth=depth, seed=seed)
     if res.dump and not os.path.exists(res.dump):
         if os.path.exists(res.dump + ".dump"):
             res.dump = res.dump + ".dump"
